@@ -987,7 +987,8 @@ def target_search(ctx, shim, r, nfonts, ntexts):
         lines += [f"fontdrop T{f}", f"fontdrop U{f}"]
         groups.append(lines); meta.append((rec, sem, ms))
     outs = vlib.run_groups(shim, groups, timeout=900)
-    stats = {"shapes": 0, "attached": 0, "attached_non_mark": 0, "default_ignorable_between": 0, "with_ligature": 0,
+    stats = {"shapes": 0, "attached": 0, "attached_non_mark": 0, "default_ignorable_between": 0, "with_ligature": 0, "with_multiple_subst": 0,
+             "markbase_subtables_disagree_on_sequence_glyph(not judged)": 0,
              "mark_inside_ligature": 0, "cursive_cross_axis_only": 0,
              "cursive_pair_with_gdef_mark(main axis not judged)": 0, "cursive_exit_reused(earlier pair not judged)": 0, "per_dir": {d: 0 for d in DIRS}}
     bad = 0
@@ -1065,6 +1066,30 @@ def classify_pos(ln, out):
     else:
         ks.append(out[:40])
     return ks
+
+
+def shared_cache_witness(ctx, shim):
+    """the witness of known_C07_base_cache_shared through shape(): `11 -> 6 6` (MultipleSubst), mark 5; subtable 2
+    (base coverage {6}) alone attaches the mark to the second 6, preceded by subtable 1 (base coverage {1}, never
+    applies) it attaches it to the first 6.  Recorded, not judged (upstream-inherited; proposed known finding)."""
+    def font(two):
+        sub1 = {"mark_coverage": [5], "base_coverage": [1], "class_count": 1, "marks": [(0, (0, 0))], "bases": [[(111, 111)]]}
+        sub2 = {"mark_coverage": [5], "base_coverage": [6], "class_count": 1, "marks": [(0, (10, 20))], "bases": [[(300, 400)]]}
+        return {"num_glyphs": 12, "cmap": "pua", "advances": [0] + [500] * 11, "gdef": {"classes": {1: 1, 6: 1, 5: 3, 11: 1}},
+                "gsub": {"features": [{"tag": "ccmp", "lookups": [0]}],
+                         "lookups": [{"type": 2, "flag": 0, "subtables": [{"coverage": [11], "sequences": [[6, 6]]}]}]},
+                "gpos": {"features": [{"tag": "mark", "lookups": [0]}],
+                         "lookups": [{"type": 4, "flag": 0, "subtables": [sub1, sub2] if two else [sub2]}]}}
+    req = "shape W l - - 0 0 - - - e00a:0,e004:1"
+    res = []
+    for two in (False, True):
+        o = vlib.run_groups(shim, [[f"font W {fontbuild.hexfont(font(two))}", req]], nproc=1)[0]
+        out = parse_shape(o[1]) if o[0] == "ok" else None
+        res.append(None if out is None or len(out) != 3 else out[2][4])
+    ctx.note_search("markbase-shared-cache-witness", 2, 2, detail={
+        "mark_x_offset_subtable2_alone": res[0], "mark_x_offset_after_subtable1": res[1],
+        "finding_present": res[0] is not None and res[0] != res[1]},
+        rule="witness of known_C07_base_cache_shared through shape(); recorded only")
 
 
 def value_font(r, with_gpos=True, with_kern=True):
@@ -1347,6 +1372,7 @@ def run(ctx):
     d3_hook_seed(ctx, shim, plans)
     mark_chain_search(ctx, shim, ctx.rng("markchain"), ctx.budget(3000, 200000))
     attach_search(ctx, shim, ctx.rng("attach"), ctx.budget(150, 10000), ctx.budget(8, 12))
+    shared_cache_witness(ctx, shim)
     target_search(ctx, shim, ctx.rng("target"), ctx.budget(240, 12000), ctx.budget(10, 12))
     value_search(ctx, shim, ctx.rng("value"), ctx.budget(150, 10000), ctx.budget(8, 12), plans)
     # the one remaining known finding last, so that it never uses up the violation budget of the streams above
